@@ -231,6 +231,7 @@ def choose_variant(P, rnd):
     if v["designation"] in ("blockseries", "blockseries-blocked"): v["container"] = "dict"
     if v["designation"] in ("indices", "blockseries") and rnd.random() < 0.5: v["interleave"] = True
     if v["designation"] == "vectors" and v["carrier"] != "dense" and rnd.random() < 0.6: v["sparse_vectors"] = True
+    if v["carrier"] != "dense" and rnd.random() < 0.5: v["explicit_zeros"] = True
     # other units: the whole Hamiltonian times a power of two (exact in floating point), the absolute tolerance given in the same units
     v["scale_exp"] = rnd.choice([0, 0, 0, 0, 0, -70, -30, 40]) if not v["int_h0"] else 0
     return v
@@ -241,6 +242,7 @@ def snap(x):
     if isinstance(x, dict): return ("dict", [(repr(k), id(val), snap(val)) for k, val in x.items()])
     if isinstance(x, (list, tuple)): return (type(x).__name__, [(id(val), snap(val)) for val in x])
     if sparse.issparse(x):
+        if x.format == "csr": return (type(x).__name__, x.shape, str(x.dtype), x.nnz, x.indptr.tobytes(), x.indices.tobytes(), x.data.tobytes())      # the raw buffers
         c = x.tocoo(); return (type(x).__name__, x.shape, str(x.dtype), c.row.tobytes(), c.col.tobytes(), c.data.tobytes())
     if isinstance(x, np.ndarray): return ("ndarray", x.shape, str(x.dtype), x.tobytes())
     return ("other", type(x).__name__)
@@ -285,7 +287,12 @@ def run_impl_numeric(P, requests, v, rnd):
         mats = {n: m[np.ix_(perm, perm)] for n, m in mats.items()}
     def conv(a):
         c = v["carrier"] if v["carrier"] != "mixed" else rnd.choice(["dense", "sparse", "spmatrix"])
-        return a if c == "dense" else (sparse.csr_array(a) if c == "sparse" else sparse.csr_matrix(a))
+        if c == "dense": return a
+        if v.get("explicit_zeros") and a.ndim == 2 and a.size:
+            # CSR with every entry stored, zeros included (what arithmetic on sparse matrices leaves behind): the caller's buffers must survive as they are
+            rr, cc = np.indices(a.shape); args = ((a.ravel().copy(), (rr.ravel(), cc.ravel())),); kws = dict(shape=a.shape)
+            return sparse.csr_array(*args, **kws) if c == "sparse" else sparse.csr_matrix(*args, **kws)
+        return sparse.csr_array(a) if c == "sparse" else sparse.csr_matrix(a)
     if v["designation"] == "blocked":
         H = {n: [[conv(m[off[i]:off[i + 1], off[j]:off[j + 1]]) for j in range(N)] for i in range(N)] for n, m in mats.items()}
     elif v["designation"] == "blockseries-blocked":
@@ -515,6 +522,8 @@ def main(seed, ncases, driver, out, mode="all"):
         # floating-point carriers against the exact model value (rounding proportional to the size of the terms)
         if not any(f["case"] == c for f in failures):
             variant = choose_variant(P, rnd); carrier = variant
+            if c % 8 == 2 and not (force and force.get("variant")):      # pre-separated CSR blocks that store explicit zeros: the caller's buffers are compared afterwards
+                variant.update(designation="blocked", carrier="sparse", container="dict", int_h0=False, scale_exp=0, explicit_zeros=True); variant.pop("interleave", None); variant.pop("sparse_vectors", None)
             if force and force.get("variant"):
                 for kk in ("interleave", "sparse_vectors", "level_rotation", "np_seed", "int_all"): variant.pop(kk, None)
                 variant.update(force["variant"])
@@ -523,6 +532,7 @@ def main(seed, ncases, driver, out, mode="all"):
             for kk in ("carrier", "designation", "container"): num_stats[kk + "=" + variant[kk]] = num_stats.get(kk + "=" + variant[kk], 0) + 1
             if variant["int_h0"]: num_stats["int_h0"] = num_stats.get("int_h0", 0) + 1
             if variant.get("level_rotation"): num_stats["level_rotation"] = num_stats.get("level_rotation", 0) + 1
+            if variant.get("explicit_zeros"): num_stats["explicit_zeros"] = num_stats.get("explicit_zeros", 0) + 1
             if variant.get("sparse_vectors"): num_stats["sparse_vectors"] = num_stats.get("sparse_vectors", 0) + 1
             if variant.get("scale_exp"): num_stats["units=2^%d" % variant["scale_exp"]] = num_stats.get("units=2^%d" % variant["scale_exp"], 0) + 1
             try:
